@@ -302,6 +302,33 @@ class LoopCheck(Check):
                 loop_checks.check_run(ctx, res, P - {"C11"}, label_suffix="@resumed")
         if "file" in routes:
             self._crash_points(ctx, cfg, fns, tmp, ref)
+        if "live_after_fault" in routes:
+            self._crash_points_live(ctx, cfg, fns, ref)
+
+    def _crash_points_live(self, ctx, cfg, fns, ref):
+        """A user who keeps the checkpoint dictionaries in memory: the run goes on after
+        the last one, fails at some later likelihood call (every one is tried), and is
+        resumed in a fresh sampler from that last dictionary -- which must still describe
+        the moment it was handed over, whatever the failed run did afterwards."""
+        P = self.props
+        total = len(ref.target.ll_calls)
+        for c in range(1, total + 1):
+            w = self.new_env(ctx, cfg, fns)
+            w.target.fail_at = c
+            w.target.check_c17 = False
+            w.run(checkpoint="callback", checkpoint_every=1)
+            if w.exception is None or not w.checkpoints:
+                continue
+            ck = w.checkpoints[-1]
+            d = {"fault_at_likelihood_call": c, "checkpoint_iteration": ck["iteration"], "route": "live_after_fault"}
+            ctx.reach("resume/live_after_fault")
+            res = self.new_env(ctx, cfg, fns, tag=f"l{c}", rng=SymRng(ctx, "other", 77))
+            res.kernel_offset = ck["n_acc"]
+            res.points_asked_before = w.target.n_points
+            res.run(resume_from=ck["live_state"], checkpoint="callback", checkpoint_every=1)
+            if "C11" in P:
+                loop_checks.compare_runs(ctx, ref, res, "c11/resume_live_after_fault", detail=d)
+            loop_checks.check_run(ctx, res, P - {"C11", "C17"}, label_suffix="@resumed_live_after_fault")
 
     def _crash_points(self, ctx, cfg, fns, tmp, ref):
         """Fault injected at every likelihood call of a run that checkpoints to
